@@ -157,6 +157,24 @@ Theorem C06_population_shape :
 Proof. exact new_individ_shape. Qed.
 Print Assumptions C06_population_shape.
 
+(* a whole run: by induction over generations (children of new_individ + optional elitism overwrite by
+   an earlier member), every generation has pop_size rows of length str_len over {0,1} *)
+Theorem C06_run_shape : forall n pop_size pop pop', (0 < pop_size)%nat ->
+  ga_run n pop_size pop pop' -> Forall (row_ok n) pop -> length pop = pop_size ->
+  Forall (row_ok n) pop' /\ length pop' = pop_size.
+Proof. exact ga_run_shape. Qed.
+Print Assumptions C06_run_shape.
+
+Theorem C06_ga_step_meaning : forall n pop_size pop pop', ga_step n pop_size pop pop' <->
+  (exists children, length children = pop_size /\ Forall (row_ok n) children /\
+     (pop' = children \/ exists best, row_ok n best /\ pop' = removelast children ++ [best])).
+Proof.
+  intros n ps pop pop'. split.
+  - intros [p c Hl Hc|p c b Hl Hc Hb]; exists c; repeat split; auto. right. eauto.
+  - intros (c & Hl & Hc & [->|(b & Hb & ->)]); [apply ga_step_plain|apply ga_step_elite]; auto.
+Qed.
+Print Assumptions C06_ga_step_meaning.
+
 (* wiring: the pools extracted from the current source bind every name to the function and the
    parameter the name promises *)
 Theorem C06_pools_named :
